@@ -200,6 +200,19 @@ pub fn diff_items(
             )),
             None => Some(Finding::new("stream-short", "no End observed")),
         }
+    } else if rf.ends_in_failing_while_condition {
+        // The caller asks once more after the error item of a `while` condition that cannot be
+        // evaluated. Nothing has happened in between, so the condition still cannot be evaluated:
+        // another error item or the end are both acceptable, a ROW is not - neither the body
+        // (condition non-zero) nor what follows the loop (condition zero) has been earned.
+        match real.steps.get(n_ref).map(|s| &s.item) {
+            Some(RealItem::Row(r)) => Some(Finding::new(
+                "row-after-failing-while-condition",
+                format!("item {}: a while condition could not be evaluated ({}); asked again, the iterator yields row(line={}, inputs={:?})", n_ref - 1, brief_ref(&rf.items[n_ref - 1]), r.line, r.inputs),
+            )),
+            Some(RealItem::Panic(p)) => Some(Finding::new(p.signature(), format!("next() #{n_ref} (after a failing while condition) panicked: {p:?}"))),
+            _ => None,
+        }
     } else {
         None
     }
